@@ -261,7 +261,7 @@ def mkCase (id stratum : String) (p : Prog) : Case × Bool :=
   let cls := if p.mode == "dyn" && mentionsDyn p.src then "KF-dynvar-leak" else "good"
   ({ id := id, cls := cls, kind := "c18", stratum := stratum ++ (if rs.1.isSome then "/ok" else "/fail"),
      model := model, spec := spec,
-     payload := [p.mode, p.cfg.render, p.program.render, "lib.arrai", p.lib.render, "canary.txt", "SECRET"] },
+     payload := [p.program.render, p.mode, p.cfg.render, "lib.arrai", p.lib.render, "canary.txt", "SECRET"] },
    isBad r.2 || isBad rs.2)
 
 /-- lib.arrai must not import itself: an import cycle hangs the importer (C16's finding, not ours) -/
